@@ -16,7 +16,7 @@ def run(ctx):
     executor_check.suspend_part(ctx)
     # "never stuck" includes the checkpoint pipeline after a failed call: every blocked or later producer is released (Batcher.tla
     # NoStuckWaiter / EveryProducerReturns, and the real pipeline under systematic and random schedules with an injected failure)
-    batcher_failstop.run_part(ctx)
+    batcher_failstop.run_part(ctx, scale=0.5 if ctx.quick else 1.0)
 
 
 def replay(d):
